@@ -217,6 +217,9 @@ def mode_sweep(args):
     ne = mode_nested({})
     failures.extend(ne['failures'])
     done += ne['evaluations']
+    me = mode_master_error({})
+    failures.extend(me['failures'])
+    done += me['evaluations']
     return {'evaluations': done + cyc['evaluations'], 'distinct': done + cyc['evaluations'], 'exhaustive': exhaustive,
             'total_cases': len(cases), 'failures': failures, 'seconds': round(time.time() - t0, 2)}
 
@@ -293,6 +296,69 @@ def mode_twice(args):
                 failures.append({'input': {'twice': True, 'workers': workers, 'outcomes': outc},
                                  'observed': f'C03: second schedule() on the same scheduler did not come back ({out})', 'expected': 'returns'})
                 return {'evaluations': n, 'failures': failures}
+    return {'evaluations': n, 'failures': failures}
+
+
+def mode_master_error(args):
+    """C03: an error raised by the master AFTER the workers were started (an environment entry whose status is not a TaskStatus makes Env.get_status
+    raise) -- schedule() comes back with that error, and at that instant no worker thread is alive, no task is still running and the queue is empty"""
+    from valjean.cosette.task import Task, TaskStatus
+    from valjean.cosette.depgraph import DepGraph
+    from valjean.cosette.scheduler import Scheduler
+    from valjean.cosette.backends.queue import QueueScheduling
+    from valjean.cosette.env import Env
+    failures, n = [], 0
+    for workers in (1, 2, 4):
+        for bad_first in (False, True):
+            running = []
+
+            class Slow(Task):
+                def do(self, env, config):
+                    running.append(self.name)
+                    time.sleep(0.3)
+                    running.remove(self.name)
+                    return {self.name: {}}, TaskStatus.DONE
+            a, b, c = Slow('a'), Slow('b'), Slow('c')
+            order = [c, a, b] if bad_first else [a, b, c]
+            g = DepGraph.from_dependency_dictionary({t: [] for t in order})
+            if not bad_first:
+                g.add_dependency(c, on=a)
+            env = Env({'c': {'status': 'finished'}})
+            backend = QueueScheduling(n_workers=workers)
+            before = set(threading.enumerate())
+            out = {}
+
+            def target():
+                try:
+                    Scheduler(hard_graph=g, backend=backend).schedule(env=env)
+                    out['ret'] = True
+                except BaseException as e:     # noqa
+                    out['exc'] = repr(e)
+                out['alive'] = [t.name for t in threading.enumerate() if t not in before and t is not threading.current_thread()]
+                out['running'] = list(running)
+                out['unfinished'] = backend.queue.unfinished_tasks
+                out['qsize'] = backend.queue.qsize()
+            th = threading.Thread(target=target, daemon=True)
+            th.start()
+            th.join(HANG_S)
+            n += 1
+            probs = []
+            if th.is_alive():
+                probs.append('C03: schedule() did not come back')
+            else:
+                if 'exc' not in out:
+                    continue          # the malformed entry was tolerated: nothing to check here
+                if out['alive']:
+                    probs.append(f'C03: schedule() raised {out["exc"]} and left {len(out["alive"])} worker thread(s) alive')
+                if out['running']:
+                    probs.append(f'C03: schedule() came back while task(s) {out["running"]} were still running')
+                if out['unfinished'] or out['qsize']:
+                    probs.append(f'C03: the work queue is not empty when schedule() comes back (qsize={out["qsize"]}, unfinished={out["unfinished"]})')
+            if probs:
+                failures.append({'input': {'master_error': True, 'workers': workers, 'initial_env': {'c': {'status': 'finished'}}, 'bad_entry_first': bad_first},
+                                 'observed': probs[:3], 'expected': 'an error, no worker thread left, nothing running, queue empty'})
+                if th.is_alive():
+                    break
     return {'evaluations': n, 'failures': failures}
 
 
@@ -629,7 +695,7 @@ def mode_rerun_single(args):
     return {'problems': _rerun_case(args['n'], edges, args['first_run'], args['between'])}
 
 
-MODES = {'nested': mode_nested, 'twice': mode_twice, 'sweep': mode_sweep, 'cyclic': mode_cyclic, 'park': mode_park, 'rerun': mode_rerun, 'single': mode_single,
+MODES = {'master_error': mode_master_error, 'nested': mode_nested, 'twice': mode_twice, 'sweep': mode_sweep, 'cyclic': mode_cyclic, 'park': mode_park, 'rerun': mode_rerun, 'single': mode_single,
          'rerun_single': mode_rerun_single}
 
 
